@@ -40,11 +40,14 @@ def modify(rng, seq, fmt):
 
 def gen_rows(rng, n):
     rows = []
+    # a quarter of the files name their targets like UniProt's HIV-1 Rev entries and relatives: REV with ONE underscore, other letter
+    # cases - near misses of the decoy prefixes REV__ / rev_, which they are not
+    names = ["REV_HV1H2", "Rev_erb", "P2", "REVOLVER", "sp|P04618|REV_HV1H2"] if rng.random() < 0.25 else [f"P{j}" for j in range(5)]
     for i in range(n):
         seq = rng.choice(SEQS)
         decoy = rng.random() < 0.3
         k = rng.choice([1, 1, 2, 3])
-        prots = [("REV__" if (decoy or rng.random() < 0.15) else "") + f"P{rng.randrange(5)}" for _ in range(k)]
+        prots = [("REV__" if (decoy or rng.random() < 0.15) else "") + names[rng.randrange(5)] for _ in range(k)]
         prots = list(dict.fromkeys(prots))
         r = rng.random()
         pep = None if r < 0.08 else rng.choice([1e-5, 0.001, 0.001, 0.02, 0.5, 1.0]) if r < 0.7 else max(1e-6, round(rng.random() ** 3, 6))
@@ -335,7 +338,7 @@ class PurgeSuite(Suite):
 
     def gen(self, rng, tier):
         for _ in range(core.tier_n(tier, 500, 6000)):
-            yield {"ps": [rng.choice(["P1", "P2", "REV__P1", "rev_P2", "X_REV__Y", "CON__P3", "REV__"]) for _ in range(rng.randint(0, 5))]}
+            yield {"ps": [rng.choice(["P1", "P2", "REV__P1", "rev_P2", "X_REV__Y", "CON__P3", "REV__", "REV_HV1H2", "Rev_erb", "rEV__x", "REV_"]) for _ in range(rng.randint(0, 5))]}
 
     def impl(self, case):
         from picked_group_fdr import helpers
